@@ -585,7 +585,17 @@ pub fn dump_case(seed: u64, i: u64, cycles: usize, scratch: &std::path::Path) ->
             let buf = Arc::new(Mutex::new(Vec::<u8>::new()));
             let fst_path = scratch.join(format!("d{i}_{k}.fst"));
             let dumper = if format == "vcd" { WaveDumper::new_vcd(Box::new(SharedVec(buf.clone()))) } else { WaveDumper::new_fst(fst_path.to_str().unwrap()) };
-            let (vars, samples) = match run_with_dump(&a.ir, &d, cfg, &stim, dumper) {
+            // an engine panic (e.g. inside Cranelift) is C02's business: the dump is not judged
+            let r = std::panic::catch_unwind(std::panic::AssertUnwindSafe(|| run_with_dump(&a.ir, &d, cfg, &stim, dumper)));
+            let r = match r {
+                Ok(r) => r,
+                Err(_) => {
+                    out.status = "engine_panic".into();
+                    outs.push(out);
+                    continue;
+                }
+            };
+            let (vars, samples) = match r {
                 Ok(x) => x,
                 Err(e) => {
                     out.status = format!("sim_build_error: {}", e.lines().next().unwrap_or(""));
